@@ -959,15 +959,35 @@ func c08PunctToken(w *World, r *Report, rule string, ch rune, item string) {
 			if c.Call.StaticCallee() != emit || len(c.Call.Args) != 2 {
 				continue
 			}
+			also := pcT
 			if k, isK := intConstOf(c.Call.Args[1]); !isK || k != kind {
-				continue
+				// the item looked up in a read-only table by the rune read: emitted for the runes whose entry it is
+				keys, vals, index, okT := pcTableEntries(w, c.Call.Args[1], true)
+				if !okT || read == nil || stripConv(index) != ssa.Value(read) {
+					continue
+				}
+				var set ISet
+				for i, kv := range keys {
+					if vals[i] == nil {
+						panic(undecided{"lexStmt: item table with a non-constant entry"})
+					}
+					kk, ok1 := intConst(kv)
+					vv, ok2 := intConst(vals[i])
+					if ok1 && ok2 && vv == kind {
+						set = set.union(isetOf(kk))
+					}
+				}
+				if len(set) == 0 {
+					continue
+				}
+				also = sym.intAtom(sym.Key(read, nil), set, false, read, nil)
 			}
 			n++
 			// from where the rune is read (what was looked at before concerns the text before it)
 			if read == nil || !(read.Block() == b || read.Block().Dominates(b)) {
 				panic(undecided{"lexStmt: emit(" + item + ") not after the rune is read"})
 			}
-			reached = pcOrF(reached, sym.PathCond(read.Block(), b, nil))
+			reached = pcOrF(reached, pcAndF(sym.PathCond(read.Block(), b, nil), also))
 		}
 	}
 	if n == 0 || read == nil {
